@@ -111,9 +111,11 @@ CLAIMED = {
  'C11': dict(
     text="Memterm's own part of byte decoding, proved on the verbatim ByteParser::feed: in UTF-8 mode every input byte is handed to the streaming decoder exactly once, in order, together with the "
          "carried decoder state, and exactly the decoder's output is handed to Parser::feed, once, in order; in 8-bit mode the characters handed on are exactly data.map(|b| b as char) "
-         "(the closure is verified); the mode flag is not changed by feeding. That the decoder IS conforming streaming UTF-8 with maximal-subpart replacement is encoding_rs's contract and is ASSUMED.",
-    design="5 C11", technique="Verus contract on the verbatim ByteParser::feed over an abstract streaming-decoder state",
-    note="ASSUMED: encoding_rs (external crate, SIMD/unsafe) implements WHATWG streaming UTF-8 decoding; select_other_charset (string-literal match) is not under contract."),
+         "(the closure is verified); the mode flag is not changed by feeding. ByteParser::new is under contract: the decoder it creates starts in the state of a decoder WITHOUT byte-order-mark handling "
+         "(a BOM-sniffing decoder swallows a leading EF BB BF: that was a genuine defect, fixed), Parser::new's result assumed fresh; select_other_charset: `@` switches to 8-bit mode and installs a fresh decoder, "
+         "`G`/`8` switch back keeping the decoder, anything else changes nothing; the decoder is never used after it was finished. That the decoder IS conforming streaming UTF-8 with maximal-subpart replacement is encoding_rs's contract and is ASSUMED.",
+    design="5 C11", technique="Verus contracts on the verbatim ByteParser::{new, feed, select_other_charset} over an abstract streaming-decoder state",
+    note="ASSUMED: encoding_rs (external crate, SIMD/unsafe) implements WHATWG streaming UTF-8 decoding (without BOM handling when created so); Parser::new is not under contract."),
  'C01': dict(
     text="Every function under contract carries, for ALL states satisfying the representation invariant and all arguments absent or <= 65535, the implicit obligations that no "
          "u32/i32/usize operation overflows, no unwrap/expect/panic!/index is reachable, and every callee's precondition holds; each also re-establishes the invariant, so the next call's "
